@@ -19,6 +19,7 @@ NOTES = {
  'C07': ('DESIGN.md 3/C07', 'real TorState(bootstrap=False); histories = bounded symbolic event choices admitted by the Tor-side reference model (vlib/ref_tor.py), after the empty state and after 5 snapshots installed through _circuit_status/_stream_status; monitors after every event'),
  'C08': ('DESIGN.md 3/C08', 'C07 objects plus recording listener doubles; listener add/remove positions, wait requests and the position of the close acknowledgement relative to the CLOSED event are symbolic choices'),
  'C09': ('DESIGN.md 3/C09', 'real TorState/attacher plumbing; harness acknowledges SETCONF/ATTACHSTREAM; attacher answer kind / delivery mode / stream kind symbolic; via-circuit: every causally possible order of 8 events for two concurrent TorCircuitEndpoint.connect calls and an unrelated stream, SOCKS leg faked'),
+ 'C10': ('DESIGN.md 3/C10', 'real TorConfig bootstrapped against SimTor; 4 (quick) / 5 (thorough) operations from assign / in-place list ops / accepted and rejected saves per option kind; SETCONF decoded by the reference kvline grammar and applied to the SimTor store; emptied-list clearing is a listed known finding'),
  'C11': ('DESIGN.md 3/C11', 'real TorConfig bootstrapped against SimTor (vlib/simtor.py) through the real protocol; one option per declared type in states unset/one/two values with symbolic values; CONF_CHANGED / local edit / save sequences'),
  'C12': ('DESIGN.md 3/C12', 'list-recording transport double; oracle = reference decoder of tor kvline grammar; values <=3 (quick) / <=4 (thorough) chars over printable ASCII+TAB/CR/LF, 1-2 pairs'),
  'C13': ('DESIGN.md 3/C13', 'reply rendered by a reference encoder (control-spec) and delivered as whole lines through the real lineReceived; values <=3/4 chars printable ASCII; two known findings carved out and re-checked by witnesses'),
